@@ -86,7 +86,7 @@ def _canon1(line):
     positioning statement in parentheses, `CHARACTER*n` as `CHARACTER(LEN=n)`, the optional
     comma in front of a `/name/` group of COMMON / NAMELIST"""
     l = line
-    l = re.sub(r"(?i)^(\s*(?:\d+\s+)?(?:endfile|backspace|rewind))\s+(\w+)\s*$", r"\1 (\2)", l)
+    l = re.sub(r"(?i)((?:^|\))\s*(?:\d+\s+)?(?:endfile|backspace|rewind))\s+(\w+)\s*$", r"\1 (\2)", l)
     l = re.sub(r"(?i)^(\s*(?:\d+\s+)?character)\s*\*\s*(\d+)", r"\1(LEN=\2)", l)
     l = re.sub(r"(?i)^(\s*(?:\d+\s+)?character)\s*\*\s*\(([^()]*)\)", r"\1(LEN=\2)", l)
     if re.match(r"(?i)^\s*(\d+\s+)?(common|namelist)\b", l):
